@@ -47,7 +47,11 @@ def pixelOfScaled : Op := fun j => do
     ("centres", listToJson ipairJ (Impl.gridPixelCentres2 truncRat shape s o pts)),
     ("indexes", intsToJson (Impl.gridPixelIndexes2 truncRat shape s o pts)),
     ("pixels", listToJson pairJ (Impl.gridPixels2 shape s o pts)),
-    ("roundtrip", listToJson pairJ (Impl.gridScaled2 shape s o (Impl.gridPixels2 shape s o pts)))])
+    ("roundtrip", listToJson pairJ (Impl.gridScaled2 shape s o (Impl.gridPixels2 shape s o pts))),
+    -- `scaled_coordinate_2d_to_scaled_at_pixel_centre_from`: index, then back to the centre
+    ("snap", listToJson pairJ (pts.map fun p =>
+      let ij := Impl.pixelCoordinates2 truncRat shape s o p
+      Impl.scaledCoordinates2 shape s o (((ij.1 : Int) : Rat), ((ij.2 : Int) : Rat))))])
 
 /-- pixel → scaled on a list of (possibly fractional) pixel coordinates -/
 def scaledOfPixel : Op := fun j => do
